@@ -652,6 +652,11 @@ func isWildcardSubexpression(re *syntax.Regexp) bool {
 }
 
 func isSafeForReverseSuffix(re *syntax.Regexp) bool {
+	// The reverse-suffix searchers pick the match end greedily (last suffix
+	// occurrence / leftmost-longest DFA end); lazy quantifiers need the NFA.
+	if hasNonGreedyQuantifier(re) {
+		return false
+	}
 	switch re.Op {
 	case syntax.OpConcat:
 		if len(re.Sub) < 2 {
@@ -899,6 +904,11 @@ func isWildcardOp(re *syntax.Regexp) bool {
 //   - `A*20*` - Star of Literal (not AnyChar or CharClass)
 //   - Patterns with Star that could match zero (zero-width issues)
 func isSafeForReverseInner(re *syntax.Regexp) bool {
+	// The match end comes from a leftmost-longest forward DFA scan, which is
+	// the greedy answer; lazy quantifiers need the NFA.
+	if hasNonGreedyQuantifier(re) {
+		return false
+	}
 	switch re.Op {
 	case syntax.OpConcat:
 		if len(re.Sub) < 2 {
